@@ -50,7 +50,9 @@ def id_validator(x):
 
 
 VALIDATORS = {"id": id_validator, "coerce": coerce_validator,
-              "reject": reject_validator, "owner": coerce_validator}
+              "reject": reject_validator, "owner": coerce_validator,
+              # "bare": a rejecting validator and nobody listening at all
+              "bare": reject_validator}
 
 
 def V(mode, x):
@@ -257,6 +259,8 @@ class Harness:
                 "s.items")
             self.s = self.owner.s
             self.s.notifiers.append(self.rec)
+        elif mode == "bare":
+            self.s = TraitSet(state, item_validator=VALIDATORS[mode])
         else:
             self.s = TraitSet(state, item_validator=VALIDATORS[mode],
                               notifiers=[self.rec])
@@ -341,7 +345,7 @@ def step(ctx, h, ref, op, tag):
     if after != before:
         ctx.nontriv((mode, typed(before), op))
         ctx.outcome("event")
-        logs = [("raw", evs)]
+        logs = [("raw", evs)] if mode != "bare" else []
         if mode == "owner":
             logs += [("items", h.items), ("observer", h.obs)]
         for lname, log in logs:
@@ -491,6 +495,7 @@ def shards(tier):
             out.append({"kind": "all", "mode": mode, "chunk": c, "of": n})
             out.append({"kind": "depth2", "mode": mode, "chunk": c, "of": n})
         out.append({"kind": "copy", "mode": mode})
+    out.append({"kind": "all", "mode": "bare", "chunk": 0, "of": 1})
     return out
 
 
